@@ -141,12 +141,16 @@ func runC05(c *Ctx) {
 	sort.Strings(want)
 	open := len(w.mechs) == 1 && w.has("openid")
 	var log []string
+	krbShifted := false
 	b64 := base64.StdEncoding.EncodeToString
 	basic := func(u, p string) string { return "Basic " + b64([]byte(u+":"+p)) }
 	for i := 0; i < 3+c.T.Choose(4) && c.S.Viol == nil; i++ {
 		method := []string{"RDG_OUT_DATA", "RDG_OUT_DATA", "RDG_IN_DATA", "GET", "POST"}[c.T.Choose(5)]
 		from := fmt.Sprintf("10.6.0.%d:%d", 1+i, 46000+i)
 		kind := c.T.Choose(12)
+		if w.has("kerberos") && c.T.Bool(1, 3) {
+			kind = 100 + c.T.Choose(5)
+		}
 		var r *env.HTTPResult
 		what := ""
 		expectReached := false
@@ -162,7 +166,78 @@ func runC05(c *Ctx) {
 			}
 			c.S.Count("fault.authnode." + fault)
 		}
+		krb := func(user, keyPass, service string, expired time.Duration) string {
+			// distinct authenticator timestamps: gokrb5's replay cache is a process-wide
+			// singleton, so they must differ between the runs of one worker process as well
+			if !krbShifted {
+				krbShifted = true
+				c.S.Advance(time.Duration(c.Res.Seed%9000)*100*time.Millisecond + time.Duration(c.Res.Seed%997)*time.Microsecond)
+			}
+			c.S.Advance(time.Millisecond)
+			h, err := env.NegotiateHeader(env.KrbTicketOpts{User: user, Realm: "CORP.TEST", Service: service, KeyPass: keyPass, ExpiredBy: expired})
+			if err != nil {
+				c.Infra("forging a Kerberos ticket: %v", err)
+			}
+			return h
+		}
 		switch kind {
+		case 100:
+			what = "kerberos-valid-ticket(alice)"
+			r = w.request(method, []string{krb("alice", "service-password", "HTTP/gw.test", 0)}, from)
+			expectReached = true
+		case 101:
+			what = "kerberos-ticket-under-another-key"
+			r = w.request(method, []string{krb("alice", "not-the-service-password", "HTTP/gw.test", 0)}, from)
+		case 102:
+			what = "kerberos-expired-ticket"
+			r = w.request(method, []string{krb("alice", "service-password", "HTTP/gw.test", 30*time.Minute)}, from)
+		case 103:
+			what = "kerberos-ticket-for-another-service"
+			r = w.request(method, []string{krb("alice", "service-password", "HTTP/other.test", 0)}, from)
+		case 104:
+			// a complete tunnel as the Kerberos principal: it runs as that user
+			if w.tls || w.has("openid") {
+				what = "kerberos-valid-ticket(bob)"
+				r = w.request(method, []string{krb("bob", "service-password", "HTTP/gw.test", 0)}, from)
+				expectReached = true
+				break
+			}
+			user := []string{"alice", "bob"}[c.T.Choose(2)]
+			target, verdict := user+".desk.test:3389", HostAllowed
+			if c.T.Bool(1, 3) {
+				target, verdict = map[string]string{"alice": "bob", "bob": "alice"}[user]+".desk.test:3389", HostDenied
+			}
+			what = fmt.Sprintf("kerberos-tunnel(%s -> %s)", user, target)
+			w.n++
+			p := &TunPlan{Name: fmt.Sprintf("k%d", w.n), Transport: []string{"ws", "legacy"}[c.T.Choose(2)], From: from, ConnID: fmt.Sprintf("{C05K-%d}", w.n), CloseAfter: -1,
+				AllowedHost: user + ".desk.test:3389", DeniedHost: map[string]string{"alice": "bob", "bob": "alice"}[user] + ".desk.test:3389"}
+			p.Pkts = []CPkt{PHandshake(0, 1, 0), PTunnelCreateNoCookie(), PTunnelAuth("n"), PChannel(target, verdict), PData([]byte("hello"))}
+			tuns := StartTunnels(c, []*TunPlan{p})
+			t := tuns[0]
+			t.Client.AuthFn = func(role string) string { return krb(user, "service-password", "HTTP/gw.test", 0) }
+			c.S.Run(func() bool { return t.SentAll() || t.Client.Failed != "" }, 6000, 30*time.Second)
+			c.S.Run(nil, 400, 3*time.Second)
+			log = append(log, fmt.Sprintf("%s->reached=%v", what, t.Client.Ready))
+			if !t.Client.Ready {
+				c.S.Fail("C05", "good-credentials-refused", "auth=%v %s: a valid Kerberos ticket did not reach the handler: %s %s", w.mechs, what, t.Client.Failed, t.Client.Describe())
+			} else {
+				t.Hosts = nil
+				for _, hn := range []string{p.AllowedHost, p.DeniedHost} {
+					if c.W.Host[hn] != nil {
+						t.Hosts = append(t.Hosts, c.W.Host[hn])
+					}
+				}
+				CheckTunnel(c, t, ModelCfg{TokenAuth: false, ServerCaps: 0}, "C05")
+				if v := c.S.Viol; v != nil {
+					v.Msg = fmt.Sprintf("auth=%v %s: the tunnel does not run as the Kerberos principal: %s/%s %s", w.mechs, what, v.Oracle, v.Sig, v.Msg)
+					v.Sig = "tunnel-user:" + v.Sig
+					v.Oracle = "C05"
+				}
+				c.S.Count("probe.kerberos_tunnel")
+			}
+			t.Client.CloseAll(false)
+			c.S.Run(nil, 100, time.Second)
+			r = nil
 		case 0, 1:
 			what = "no-authorization"
 			if c.T.Bool(1, 3) {
@@ -386,7 +461,7 @@ func runC05(c *Ctx) {
 			if r.Status == 101 {
 				c.S.Fail("C05", "upgrade-for-non-rdg-method", "auth=%v %s %s: 101", w.mechs, method, what)
 			}
-			credsOK := open || strings.HasPrefix(what, "basic-correct") && w.has("local") && fault == ""
+			credsOK := open || strings.HasPrefix(what, "basic-correct") && w.has("local") && fault == "" || strings.HasPrefix(what, "kerberos-valid")
 			if !credsOK && r.Status == 200 {
 				c.S.Fail("C05", "reached-without-credentials", "auth=%v %s %s %s: status 200 means the gateway handler was reached", w.mechs, method, what, fault)
 			}
